@@ -344,10 +344,11 @@ def pu1(proj, rep, modules):
     for mq in modules:
         m = proj.mod(mq)
         rep.touch(m)
-        for fi in [f for f in proj.funcs.values() if f.module is m and f.cls is None]:
+        for fi in [f for f in proj.funcs.values() if f.module is m]:
             if fi.qual.rsplit('.', 1)[1].endswith('_'):
                 continue
-            params = [p for p in fi.all_params]
+            # methods: the object itself (self / cls / ctx) is theirs to change, their other arguments are not
+            params = [p for p in fi.all_params if p not in ('self', 'cls', 'ctx')]
             aliases = {p: p for p in params}
             stores = 0
             bad = None
@@ -382,7 +383,9 @@ def pu1(proj, rep, modules):
                 elif isinstance(s, ast.AugAssign) and not isinstance(s.target, ast.Name):
                     tgt = s.target
                 elif isinstance(s, ast.AugAssign) and isinstance(s.target, ast.Name) and (
-                        _array_evidence(fi, s.target.id) or (s.target.id not in params and aliases.get(s.target.id) is not None)):
+                        _array_evidence(fi, s.target.id) or (s.target.id not in params and aliases.get(s.target.id) is not None
+                                                             and any(x.targets[0].id == s.target.id and not isinstance(x.value, ast.Name) and _may_alias(x.value, aliases) is not None
+                                                                     for x in assigns))):
                     tgt = s.target          # `x op= v` on a bare name is in place only for arrays: reported when the function itself treats x as an array
                 if tgt is None:
                     continue
